@@ -1097,3 +1097,317 @@ func firstCaseConst(pkg *packages.Package, st ast.Stmt) string {
 	}
 	return ""
 }
+
+// ---------------------------------------------------------------------------
+// R-LOOPVARSCOPE
+
+var ruleLoopVarScope = &Rule{
+	ID:    "R-LOOPVARSCOPE",
+	Doc:   "the compiler defines a `for` loop variable inside a scope that encloses the whole loop (enterScope dominates the Define, leaveScope follows): otherwise the loop variable shares the slot of an outer variable of the same name, which the evaluator keeps distinct",
+	Floor: 1,
+	Run:   runLoopVarScope,
+}
+
+func runLoopVarScope(c *Ctx, r *Reporter) {
+	p, pkg := bytecodePkg(c, r)
+	if pkg == nil {
+		return
+	}
+	define := FindFunc(pkg, "(*SymbolTable).Define")
+	enter := FindFunc(pkg, "(*Compiler).enterScope")
+	leave := FindFunc(pkg, "(*Compiler).leaveScope")
+	if define == nil || enter == nil || leave == nil {
+		r.Undecided("Define/enterScope/leaveScope not found")
+		return
+	}
+	defSSA, enterSSA, leaveSSA := p.SSAFunc(define.Obj), p.SSAFunc(enter.Obj), p.SSAFunc(leave.Obj)
+	n := 0
+	for _, fd := range Funcs(pkg) {
+		sf := p.SSAFunc(fd.Obj)
+		if sf == nil {
+			continue
+		}
+		for _, ci := range callsTo(sf, defSSA) {
+			// the defined name comes from a LoopVar field
+			if !mentionsField(ci.Common().Args[1], "LoopVar", 6) {
+				continue
+			}
+			n++
+			okScope := false
+			for _, e := range callsTo(sf, enterSSA) {
+				if instrDominates(e.(ssa.Instruction), ci.(ssa.Instruction)) {
+					for _, l := range callsTo(sf, leaveSSA) {
+						if reachesBlock(ci.Block(), l.Block()) {
+							okScope = true
+						}
+					}
+				}
+			}
+			r.Check(okScope, fd.QName()+"#loopvar-scope", p.Rel(instrPos(ci.(ssa.Instruction))), "the loop variable lives in a scope of its own",
+				"the loop variable is defined in the enclosing symbol table (no enterScope before Define): `i := 5` followed by `for i := range 3 … end` overwrites the outer i on the VM, while the evaluator keeps it (two live variables share a slot)")
+		}
+	}
+	if n == 0 {
+		r.Undecided("no Define of a loop variable found in the compiler")
+	}
+}
+
+func mentionsField(v ssa.Value, field string, depth int) bool {
+	if depth == 0 {
+		return false
+	}
+	switch x := v.(type) {
+	case *ssa.UnOp:
+		return mentionsField(x.X, field, depth-1)
+	case *ssa.FieldAddr:
+		if _, name := fieldAddrInfo(x); name == field {
+			return true
+		}
+		return mentionsField(x.X, field, depth-1)
+	case *ssa.Field:
+		if _, name := fieldValInfo(x); name == field {
+			return true
+		}
+		return mentionsField(x.X, field, depth-1)
+	}
+	return false
+}
+
+// ---------------------------------------------------------------------------
+// R-VMVALUES: value discipline of the VM (sibling of R-FRESH / R-MAPENC / R-DECLORDER)
+
+var ruleVMValues = &Rule{
+	ID:    "R-VMVALUES",
+	Doc:   "VM value discipline: every array the VM builds gets freshly allocated backing storage (concatenation, repetition, slicing never alias an operand); an update of a local copy of a value struct is not lost (a field stored into a by-value copy that is never read again is a lost update); a declaration compiles its initialiser before it defines the variable (the initialiser sees the outer binding, as in the evaluator); a fresh break list never aliases the saved one",
+	Floor: 5,
+	Run:   runVMValues,
+}
+
+func runVMValues(c *Ctx, r *Reporter) {
+	p, pkg := bytecodePkg(c, r)
+	if pkg == nil {
+		return
+	}
+	// (1) fresh backing storage
+	for _, fd := range Funcs(pkg) {
+		sf := p.SSAFunc(fd.Obj)
+		if sf == nil {
+			continue
+		}
+		n := 0
+		for _, b := range sf.Blocks {
+			for _, ins := range b.Instrs {
+				a, ok := ins.(*ssa.Alloc)
+				if !ok {
+					continue
+				}
+				named := allocElemNamed(a)
+				if named == nil || named.Obj().Name() != "arrayVal" || named.Obj().Pkg() != pkg.Types {
+					continue
+				}
+				if wholeStructCopySource(a) != nil || isWholeStructCopy(a) {
+					continue // copy of an existing array value (shared by design)
+				}
+				stores := fieldStores(a, "Elements")
+				if len(stores) == 0 {
+					continue
+				}
+				n++
+				construct := fmt.Sprintf("%s#new-arrayVal[%d]", fd.QName(), n)
+				okF := true
+				for _, st := range stores {
+					if !isFreshSlice(st.Val, 0) && !appendOntoOwnField(st, a) {
+						okF = false
+					}
+				}
+				r.Check(okF, construct, p.Rel(instrPos(a)), "the new array has backing storage of its own", "a new array value is built on storage that may belong to an operand (e.g. append(left.Elements, …)): a later index assignment through one array shows up in the other, unlike in the evaluator where concatenation/slicing/repetition return fresh containers")
+			}
+		}
+	}
+	// (2) lost updates on by-value copies
+	for _, fd := range Funcs(pkg) {
+		sf := p.SSAFunc(fd.Obj)
+		if sf == nil {
+			continue
+		}
+		lost := map[string]ssa.Instruction{}
+		for _, b := range sf.Blocks {
+			for _, ins := range b.Instrs {
+				a, ok := ins.(*ssa.Alloc)
+				if !ok {
+					continue
+				}
+				named := allocElemNamed(a)
+				if named == nil || named.Obj().Pkg() != pkg.Types {
+					continue
+				}
+				if _, isStruct := named.Underlying().(*types.Struct); !isStruct {
+					continue
+				}
+				if !isWholeStructCopy(a) {
+					continue
+				}
+				// field stores into the copy
+				for _, ref := range *a.Referrers() {
+					fa, ok := ref.(*ssa.FieldAddr)
+					if !ok {
+						continue
+					}
+					_, fname := fieldAddrInfo(fa)
+					for _, r2 := range *fa.Referrers() {
+						st, ok := r2.(*ssa.Store)
+						if !ok || st.Addr != ssa.Value(fa) {
+							continue
+						}
+						if !copyReadAfter(a, st) {
+							lost[named.Obj().Name()+"."+fname] = st
+						}
+					}
+				}
+			}
+		}
+		keys := []string{}
+		for k := range lost {
+			keys = append(keys, k)
+		}
+		sort.Strings(keys)
+		for _, k := range keys {
+			r.Viol(fd.QName()+"#lost-update:"+k, p.Rel(instrPos(lost[k])), "a field ("+k+") is assigned on a by-value copy of the value that is never read again: the update is lost (for maps: a key added by index assignment never appears in the key order, so it is neither printed nor iterated)")
+		}
+		if len(keys) == 0 && fd.Name() == "(*VM).Run" {
+			r.Ok(fd.QName()+"#lost-update", p.Rel(fd.Decl.Pos()), "no update of a by-value copy is lost")
+		}
+	}
+	// (3) declaration order
+	if fd := FindFunc(pkg, "(*Compiler).compileDecl"); fd != nil {
+		sf := p.SSAFunc(fd.Obj)
+		def := FindFunc(pkg, "(*SymbolTable).Define")
+		comp := FindFunc(pkg, "(*Compiler).Compile")
+		if def != nil && comp != nil {
+			defs, comps := callsTo(sf, p.SSAFunc(def.Obj)), callsTo(sf, p.SSAFunc(comp.Obj))
+			okOrder := len(defs) == 1 && len(comps) >= 1
+			if okOrder {
+				for _, cc := range comps {
+					if !instrDominates(cc.(ssa.Instruction), defs[0].(ssa.Instruction)) {
+						okOrder = false
+					}
+				}
+			}
+			r.Check(okOrder, fd.QName()+"#value-before-define", p.Rel(fd.Decl.Pos()), "the initialiser is compiled before the variable is defined", "compileDecl must compile the initialiser before Define: `x := x + 1` in an inner block has to read the outer x (as the evaluator does), not the new, still unset slot")
+		}
+	} else {
+		r.Undecided("(*Compiler).compileDecl not found")
+	}
+	// (4) break list freshness
+	for _, fd := range Funcs(pkg) {
+		sf := p.SSAFunc(fd.Obj)
+		if sf == nil {
+			continue
+		}
+		n := 0
+		for _, b := range sf.Blocks {
+			for _, ins := range b.Instrs {
+				st, ok := ins.(*ssa.Store)
+				if !ok {
+					continue
+				}
+				fa, ok := st.Addr.(*ssa.FieldAddr)
+				if !ok || fieldName(fa) != "breaks" {
+					continue
+				}
+				sl, ok := st.Val.(*ssa.Slice)
+				if !ok {
+					continue
+				}
+				n++
+				_, fromAlloc := sl.X.(*ssa.Alloc)
+				r.Check(fromAlloc, fmt.Sprintf("%s#fresh-breaks[%d]", fd.QName(), n), p.Rel(instrPos(st)), "the inner loop's break list is a fresh slice", "the break list of an inner loop is a reslice of the saved outer list (shared backing array): break positions of the outer loop get overwritten and are never patched")
+			}
+		}
+	}
+}
+
+// appendOntoOwnField: x.Elements = append(x.Elements, …) on the same fresh alloc.
+func appendOntoOwnField(st *ssa.Store, a *ssa.Alloc) bool {
+	call, ok := st.Val.(*ssa.Call)
+	if !ok {
+		return false
+	}
+	bi, ok := call.Call.Value.(*ssa.Builtin)
+	if !ok || bi.Name() != "append" {
+		return false
+	}
+	u, ok := call.Call.Args[0].(*ssa.UnOp)
+	if !ok {
+		return false
+	}
+	fa, ok := u.X.(*ssa.FieldAddr)
+	if !ok || fa.X != ssa.Value(a) {
+		return false
+	}
+	// every earlier store to the field is fresh (or such an append)
+	for _, s2 := range fieldStores(a, fieldName(fa)) {
+		if s2 == st {
+			continue
+		}
+		if !isFreshSlice(s2.Val, 0) && !(s2 != st && appendOntoOwnFieldShallow(s2, a)) {
+			return false
+		}
+	}
+	return true
+}
+
+func appendOntoOwnFieldShallow(st *ssa.Store, a *ssa.Alloc) bool {
+	call, ok := st.Val.(*ssa.Call)
+	if !ok {
+		return false
+	}
+	bi, ok := call.Call.Value.(*ssa.Builtin)
+	if !ok || bi.Name() != "append" {
+		return false
+	}
+	u, ok := call.Call.Args[0].(*ssa.UnOp)
+	if !ok {
+		return false
+	}
+	fa, ok := u.X.(*ssa.FieldAddr)
+	return ok && fa.X == ssa.Value(a)
+}
+
+// copyReadAfter: after st, the copy a is loaded (whole or the stored field) or its address escapes.
+func copyReadAfter(a *ssa.Alloc, st *ssa.Store) bool {
+	after := func(ins ssa.Instruction) bool {
+		if ins.Block() == st.Block() {
+			return instrDominates(st, ins) && ins != ssa.Instruction(st)
+		}
+		return reachesBlock(st.Block(), ins.Block())
+	}
+	stFA := st.Addr.(*ssa.FieldAddr)
+	for _, ref := range *a.Referrers() {
+		switch x := ref.(type) {
+		case *ssa.UnOp: // whole load
+			if after(x) {
+				return true
+			}
+		case *ssa.FieldAddr:
+			if x.Field != stFA.Field {
+				continue
+			}
+			for _, r2 := range *x.Referrers() {
+				if u, ok := r2.(*ssa.UnOp); ok && after(u) {
+					// a load that only feeds the stored value itself (append(x.f, …)) precedes the store
+					return true
+				}
+			}
+		case *ssa.Call, *ssa.MakeInterface, *ssa.MakeClosure:
+			if after(x.(ssa.Instruction)) {
+				return true
+			}
+		case *ssa.Store:
+			if x.Val == ssa.Value(a) {
+				return true // address stored somewhere
+			}
+		}
+	}
+	return false
+}
